@@ -11,6 +11,7 @@ numbers finite except the documented MAX_FLOAT clip of gjk_distance_jolt, no exc
 polytope-capacity AssertionError on smooth shapes.
 """
 import json
+import time
 import math
 
 import numpy as np
@@ -223,6 +224,12 @@ def targeted_search(R, tier):
 
 def run(tier, seed, replay=None):
     R = cm.Run(PID, "other", tier, seed)
+    _t = [time.time()]
+    R.cov["phase_s"] = {}
+
+    def phase(name):
+        R.cov["phase_s"][name] = round(time.time() - _t[0], 1)
+        _t[0] = time.time()
     R.cov["explanation"] = (
         "Theorem (Coq, all inputs, data-dependent decisions as arbitrary oracles): the capped loops of gjk_intersection_libccd, "
         "epa, mpr portal discovery, mpr_penetration's refinement and both Nesterov loops terminate with at most f(caps) support "
@@ -287,9 +294,12 @@ def run(tier, seed, replay=None):
         g1, g2 = gen_cases(R.rng, tier)
         cases += g1
         scenes += g2
+    phase("caps+proofs+generation")
     R.cov["jit_warmup"] = nb.warm(PID)
+    phase("jit_warmup")
     results = nb.run_cases(PID, cases + scenes)
     R.cov["evaluations"] = len(cases) + len(scenes)
+    phase("implementation")
     hist = {}
     maxcalls = {}
     distinct = set()
@@ -388,12 +398,14 @@ def run(tier, seed, replay=None):
             distinct.add(cm.canon_hash([s1, s2, c.get("same_object", False)]))
     if R.proof_broken and not R.violations and not replay:
         targeted_search(R, tier)
+    phase("judging")
     if not replay:
         try:
             R.cov["implementation_statement_coverage"] = nb.statement_coverage(PID, cases, n=32 if tier == "quick" else 400,
                                                                                workers=8 if tier == "quick" else 16)
         except Exception as e:  # noqa
             R.notes.append(f"statement coverage run failed: {type(e).__name__}: {e}")
+    phase("statement_coverage")
     R.cov["distinct_nontrivial"] = len(distinct)
     R.cov["entry_point_calls"] = calls_total
     R.cov["max_support_evaluations_per_entry_point"] = maxcalls
